@@ -177,8 +177,9 @@ func Enum[C any](h *H, kind string, n int, decode func(int) C, fast func(i int) 
 	var wg sync.WaitGroup
 	var mu sync.Mutex
 	first := -1
+	var firstErr error
 	var next int64
-	const chunk = 4096
+	const chunk = 1024
 	for w := 0; w < workers; w++ {
 		wg.Add(1)
 		go func() {
@@ -193,18 +194,28 @@ func Enum[C any](h *H, kind string, n int, decode func(int) C, fast func(i int) 
 					hi = n
 				}
 				for i := lo; i < hi; i++ {
-					ok := func() (ok bool) {
-						defer func() {
-							if r := recover(); r != nil {
-								ok = false
-							}
+					var err error
+					if fast == nil {
+						// the single-case check is the evaluator: its verdict stands even if a
+						// re-evaluation would differ (a result that depends on call history is a failure too)
+						err = safely(check, decode(i))
+					} else {
+						ok := func() (ok bool) {
+							defer func() {
+								if r := recover(); r != nil {
+									ok = false
+								}
+							}()
+							return fast(i)
 						}()
-						return fast(i)
-					}()
-					if !ok {
+						if !ok {
+							err = errFlagged
+						}
+					}
+					if err != nil {
 						mu.Lock()
 						if first < 0 || i < first {
-							first = i
+							first, firstErr = i, err
 						}
 						mu.Unlock()
 					}
@@ -213,15 +224,21 @@ func Enum[C any](h *H, kind string, n int, decode func(int) C, fast func(i int) 
 		}()
 	}
 	wg.Wait()
-	if first >= 0 {
-		c := decode(first)
-		err := safely(check, c)
-		if err == nil {
-			h.t.Fatalf("HARNESS-ERROR %s/%s: bulk evaluator flagged index %d but the single-case check passes", h.R.Prop, kind, first)
-		}
-		h.fail(kind, c, err)
+	if first < 0 {
+		return
 	}
+	c := decode(first)
+	if fast == nil {
+		h.fail(kind, c, firstErr)
+	}
+	err := safely(check, c)
+	if err == nil {
+		h.t.Fatalf("HARNESS-ERROR %s/%s: bulk evaluator flagged index %d but the single-case check passes", h.R.Prop, kind, first)
+	}
+	h.fail(kind, c, err)
 }
+
+var errFlagged = fmt.Errorf("flagged by the bulk evaluator")
 
 // parallelFor runs body(i) for i in [0,n) on all cores.
 func parallelFor(n int, body func(i int)) {
